@@ -1,10 +1,12 @@
 import FlowRecord.Model.Detect
+import FlowRecordProofs.Lemmas.HeaderMagic
 /-!
 C11 — compression and container format are detected transparently.
 Property theorems only. All are about the tables as extracted from the current source (`Gen`);
 the codec libraries are the hypothesis `CodecLaws` (exercised against the real codecs by harness/props/C11.py).
 -/
-open FlowRecord FlowRecord.Detect
+open FlowRecord hiding Bytes
+open FlowRecord.Detect
 
 /-- The magic table is unambiguous: no magic is a prefix of another, of the stream header or of "Obj". -/
 theorem C11_magic_unambiguous :
@@ -124,6 +126,29 @@ theorem C11_refuse (L : CodecLaws) (avail : String → Bool) (bs : Bytes)
     simp only [Gen.RECORDSTREAM_MAGIC_DEPTH] at h3
     simp [sniffContainer, sniffContainerIn, Gen.containerChain, List.find?, flagOk, h2, h3]
   simp [openFileObj, h1, L.none_id_d, this]
+
+/-- Second line of refusal, the reader's own header check (`readheader`): the stream adapter is chosen as soon as the
+    magic occurs anywhere within the sniffing depth, but input in which the magic sits EARLIER than in a header frame
+    (0 to 5 bytes before it instead of 6, whatever those bytes and whatever follows) is refused with a format error,
+    never read as records. -/
+theorem C11_refuse_misplaced_magic (junk tail : Bytes) (hj : junk.length < 6)
+    (hl : Stream.headerLen ≤ (junk ++ Gen.RECORDSTREAM_MAGIC ++ tail).length) :
+    Stream.readHeader (junk ++ Gen.RECORDSTREAM_MAGIC ++ tail) = none :=
+  Stream.readHeader_misplaced_magic junk tail hj hl
+
+/-- … and the genuine header frame is accepted, whatever follows. -/
+theorem C11_header_accepted (tail : Bytes) :
+    Stream.readHeader (streamHeader ++ tail) = some tail := by
+  have hl : streamHeader.length = Stream.headerLen := by decide
+  unfold Stream.readHeader
+  rw [List.take_left' hl, List.drop_left' hl]
+  have : Gen.RECORDSTREAM_MAGIC.reverse.isPrefixOf streamHeader.reverse = true := by decide
+  simp [this]
+
+/-- Recorded finding: the length hypothesis of `C11_refuse_misplaced_magic` cannot be dropped. An input SHORTER than
+    a header frame that ends with the magic — here the 13 magic bytes alone — passes the header check and is read as
+    an empty stream (the check is `endswith` on up to 19 bytes). No record is misread. -/
+theorem C11_short_input_counterexample : Stream.readHeader Gen.RECORDSTREAM_MAGIC = some [] := by decide
 
 /-- The extension table: names ending in .avro/.json/.jsonl/.csv select their adapter, everything else the
     binary stream adapter (tables as extracted). -/
